@@ -544,6 +544,9 @@ class TorrentFileV2(MetaFile, ProgMixin):
             Metainformation about the torrent.
         """
         info = self.meta["info"]
+        # start from scratch: assemble() may be called again on the object
+        self.piece_layers = {}
+        self.hashes = []
         if os.path.isfile(self.path):
             info["file tree"] = {info["name"]: self._traverse(self.path)}
             info["length"] = os.path.getsize(self.path)
@@ -629,6 +632,11 @@ class TorrentFileHybrid(MetaFile, ProgMixin):
         """
         info = self.meta["info"]
         info["meta version"] = 2
+        # start from scratch: assemble() may be called again on the object
+        self.hashes = []
+        self.piece_layers = {}
+        self.pieces = []
+        self.files = []
 
         if os.path.isfile(self.path):
             info["file tree"] = {self.name: self._traverse(self.path)}
@@ -736,6 +744,11 @@ class TorrentAssembler(MetaFile, ProgMixin):
         """
         info = self.meta["info"]
         info["meta version"] = 2
+        # start from scratch: assemble() may be called again on the object
+        self.hashes = []
+        self.piece_layers = {}
+        self.pieces = bytearray()
+        self.files = []
 
         if os.path.isfile(self.path):
             info["file tree"] = {self.name: self._traverse(self.path)}
